@@ -384,7 +384,7 @@ func runEdsReconcile(rec *edsctl.Reconciler, wl *writeLog, ns, name string) (eds
 	})
 	t1 := time.Now()
 	nowC := canon.T(t0)
-	lo, hi := canon.T(t0.Truncate(time.Second)), canon.T(t1)
+	lo, hi := canon.T(t0), canon.T(t1)
 	out := edsOutJ{Kind: "ok", DeletedErs: []string{}, SpecAnn: []canon.KV{}, Order: wl.Order, Foreign: []string{}}
 	if out.Order == nil {
 		out.Order = []string{}
